@@ -1,18 +1,8 @@
 (* WriterProofs.v -- properties of the code writer model (Writer.v) and of the
    generated printer run through it (C06, C08, C14). *)
 Require Import Base GoOps Token Tree SourceMap Writer PrinterLib Compile WriterSpec.
-Require Import Gen.Printer Gen.Effects.
+Require Import Gen.Printer.
 From Coq Require Import ZifyBool ZifyN ZifyNat Lia.
-
-(* ------------------------------------------------------------------ *)
-(* C14: generated write sets                                           *)
-(* ------------------------------------------------------------------ *)
-
-Lemma effects_globals : global_var_writes = [] /\ global_var_aliases = [].
-Proof. split; reflexivity. Qed.
-
-Lemma effects_frozen : node_method_receiver_writes = [] /\ frozen_argument_writes = [].
-Proof. split; reflexivity. Qed.
 
 (* ------------------------------------------------------------------ *)
 (* generic facts                                                       *)
